@@ -325,3 +325,21 @@ func (r *Report) writeEvidence(discharged, violations, knownHits, distinct int) 
 		fmt.Println("BROKEN: cannot write evidence:", err)
 	}
 }
+
+// linkObligations evaluates another property's rules on the same program and files those obligations that match under
+// a rule of this report: the linked rule is a necessary condition of both properties.
+func linkObligations(w *World, r *Report, from func(*World, *Report), fromProp string, match func(*Obligation) bool, toRule string) {
+	sub := NewReport(fromProp, r.Tier, r.Seed, r.VerifDir)
+	sub.NoEvidence = true
+	from(w, sub)
+	n := 0
+	for _, o := range sub.Obs {
+		if match(o) {
+			n++
+			r.add(toRule, o.Construct, o.Pos, o.Status, o.Detail, o.Witness)
+		}
+	}
+	if n == 0 {
+		r.Unknown(toRule, "linked obligations of "+fromProp, "-", "none found")
+	}
+}
